@@ -38,6 +38,10 @@ def arms_of(sw):
             n = kids(n)[0]
         if cur is not None:
             cur[1].append(n)
+    # an empty arm falls through into the next one
+    for i in range(len(arms) - 2, -1, -1):
+        if not arms[i][1]:
+            arms[i][1] = list(arms[i + 1][1])
     return arms
 
 
